@@ -44,6 +44,7 @@ def cfg_text(p, spec="Spec", invariants=True):
         lines.append(" %s = %d" % (k, p[k]))
     for k in ("Leaves", "InnerLeaves", "SibLeaves", "FlexOffs", "FlexPads", "EnumClasses"):
         lines.append(" %s = %s" % (k, _set(p[k])))
+    lines.append(' FlagTier = "%s"' % p.get("FlagTier", "none"))
     lines.append(' Mutant = "%s"' % p.get("Mutant", ""))
     if invariants:
         lines += ["INVARIANT " + i for i in (INVARIANTS if invariants is True else invariants)]
